@@ -348,6 +348,7 @@ def decide_obligation(ob, tier, pool=None):
     results = {}
     enc = Encoder(ob)
     roots = []
+    op_result, goal_cone = {}, {}
     for p in ob["paths"]:
         roots += [c for c, _ in p["pc"]] + list(p["assume"]) + [g[1] for g in p["goals"]]
     partial = ob.get("partial") or []
@@ -364,10 +365,27 @@ def decide_obligation(ob, tier, pool=None):
         def absx(e):
             return f"(ite (>= {e} 0.0) {e} (- {e}))"
         kinds = set()
+        # one goal per partial operation (named by kind and ordinal on its path: the "call site"), each decided in its own
+        # cone of influence; a path without the k-th operation of a kind has the trivial goal
+        per_path, order = [], []
+        # an obligation may restrict itself to a range of the partial operations its code executes (in execution order):
+        # a goal named scope_ops_<first>_<last>
+        scope = None
+        for gn in goal_names:
+            m = re.match(r"scope_ops_(\d+)_(\d+)$", gn)
+            if m:
+                scope = (int(m.group(1)), int(m.group(2)))
+                o.extra["partial_operation_scope"] = list(scope)
+        node_index = {tuple(n): j for j, n in enumerate(nodes) if n and n[0] in ("div", "sqrt", "ln", "pow", "asin", "acos")}
         for k, p in enumerate(ob["paths"]):
-            conj = []
+            cnt, goals_k = {}, {}
+            ordinal = 0
             for kind, ops, pc, run in partial:
                 if run != k and ob["mode"].startswith("scalar"):
+                    continue
+                ordinal += 1
+                if scope and not (scope[0] <= ordinal <= scope[1]):
+                    cnt[kind] = cnt.get(kind, 0) + 1
                     continue
                 kinds.add(kind)
                 a = [enc.name(x) for x in ops]
@@ -384,16 +402,26 @@ def decide_obligation(ob, tier, pool=None):
                     d = f"(not (= {a[0]} 0.0))"
                 else:  # asin / acos
                     d = f"(and (<= (- 1.0) {a[0]}) (<= {a[0]} 1.0))"
-                conj.append(f"(=> {g} {d})")
-            p["goals"].append(["all_partial_operations_defined", "(and true " + " ".join(conj) + ")"])
-        goal_names.append("all_partial_operations_defined")
+                cnt[kind] = cnt.get(kind, 0) + 1
+                gname = f"defined_{kind}_{cnt[kind]}"
+                goals_k[gname] = (f"(=> {g} {d})", list(ops) + [pc])
+                op_result.setdefault(gname, set()).add(node_index.get((kind,) + tuple(ops)))
+                if gname not in order:
+                    order.append(gname)
+            per_path.append(goals_k)
+        for k, p in enumerate(ob["paths"]):
+            for gname in order:
+                f, r = per_path[k].get(gname, ("true", []))
+                p["goals"].append([gname, f])
+                goal_cone[(id(p), gname)] = r
+        goal_names += order
         o.extra["partial_operations"] = {"count": len(partial), "kinds": sorted(kinds)}
         enc_name = enc.name
         enc.name = lambda i: i if isinstance(i, str) else enc_name(i)
     pending = []
     for gi, gname in enumerate(goal_names):
         ids = [p["goals"][gi][1] for p in ob["paths"]]
-        if all((not isinstance(i, str)) and nodes[i] == ["bconst", True] for i in ids):
+        if all(i == "true" or ((not isinstance(i, str)) and nodes[i] == ["bconst", True]) for i in ids):
             results[gname] = ("pass", "decided by hash-consing / constant folding (no solver query)", None)
         else:
             pending.append((gi, gname))
@@ -451,10 +479,23 @@ def decide_obligation(ob, tier, pool=None):
     o.extra["reachability_witness"] = next(iter(witness.values()), None)
     # phase 2: every feasible path x pending goal
     jobs = [(p, gi, gname) for p in live for gi, gname in pending
-            if isinstance(p["goals"][gi][1], str) or nodes[p["goals"][gi][1]] != ["bconst", True]]
+            if (isinstance(p["goals"][gi][1], str) and p["goals"][gi][1] != "true")
+            or (not isinstance(p["goals"][gi][1], str) and nodes[p["goals"][gi][1]] != ["bconst", True])]
     # stage 1: basic axioms; stage 2 (only if stage 1 is not unsat and extended axioms exist): + trigonometric relations
-    scripts = [(query_script(enc, ob, p, hdr, p["goals"][gi][1]),
-                query_script(enc, ob, p, hdr_ext, p["goals"][gi][1]) if ext_axioms else None) for p, gi, gname in jobs]
+    def job_scripts(p, gi, gname):
+        if ob["prop"] == "C07" and gname.startswith("defined_"):
+            # private cone of influence: path condition, assumptions and the operands / guard of this one operation
+            cenc = Encoder(ob)
+            cenc.encode([c for c, _ in p["pc"]] + list(p["assume"]) + goal_cone[(id(p), gname)])
+            cax, cext, _ = AX.ground_axioms(cenc, ob)
+            chdr = cenc.header() + AX.declarations(cenc.used_uf) + cenc.lines + cax
+            cname = cenc.name
+            cenc.name = lambda i: i if isinstance(i, str) else cname(i)
+            return (query_script(cenc, ob, p, chdr, p["goals"][gi][1]),
+                    query_script(cenc, ob, p, chdr + cext, p["goals"][gi][1]) if cext else None)
+        return (query_script(enc, ob, p, hdr, p["goals"][gi][1]),
+                query_script(enc, ob, p, hdr_ext, p["goals"][gi][1]) if ext_axioms else None)
+    scripts = [job_scripts(p, gi, gname) for p, gi, gname in jobs]
     if scripts:
         with open(os.path.join(C.BUILD, "smt", ob["name"] + ".smt2"), "w") as f:
             f.write(scripts[0][1] or scripts[0][0])
@@ -517,7 +558,7 @@ def decide_obligation(ob, tier, pool=None):
                         break
                     results[gname] = ("not-reproduced", f"solver model {v}: SIMD-path {mval!r} and native scalar {fval!r} agree", v)
                     continue
-                ng = "finite" if gname == "all_partial_operations_defined" else gname
+                ng = "finite" if gname.startswith("defined_") else gname
                 bad64 = rp["f64"]["assume_ok"] and rp["f64"]["goals"].get(ng) is False
                 bad32 = rp["f32"]["assume_ok"] and rp["f32"]["goals"].get(ng) is False
                 if bad64 and bad32:
@@ -531,6 +572,22 @@ def decide_obligation(ob, tier, pool=None):
             results[gname] = ("undecided", f"solver answered '{unk[0][0]}' on {len(unk)} path(s) within {cap}s", None)
         else:
             results[gname] = ("pass", "", None)
+    # C07: an operation whose operands are computed from the result of an operation already shown undefined is moot (its
+    # input is NaN whatever it does); it is neither a pass nor a separate violation
+    if ob["prop"] == "C07":
+        broken = set()
+        for g, v in results.items():
+            if v[0] == "violation":
+                broken |= {r for r in op_result.get(g, ()) if r is not None}
+        if broken:
+            for g, v in list(results.items()):
+                if v[0] in ("undecided", "not-reproduced") and g.startswith("defined_"):
+                    cone = set()
+                    for pth in ob["paths"]:
+                        cone |= set(Encoder(ob).cone(goal_cone.get((id(pth), g), [])))
+                    if cone & broken:
+                        results[g] = ("pass", "moot: consumes the result of an operation shown undefined", None)
+                        o.extra.setdefault("moot_goals", []).append(g)
     bad = {k: v for k, v in results.items() if v[0] != "pass"}
     o.extra["goals"] = {k: v[0] for k, v in results.items()}
     o.extra["feasible_paths"] = feasible
@@ -548,6 +605,8 @@ def decide_obligation(ob, tier, pool=None):
             json.dump({"engine": "symx", "obligation": ob["name"], "goal": k, "values": v[2],
                        "vars": [x["name"] for x in ob["vars"]], "detail": v[1]}, f, indent=1)
         o.result, o.replay, o.detail = C.FAIL, path, "; ".join(f"{k}: {v[1]}" for k, v in viol.items())[:900]
+        o.violated_goals = sorted(viol)
+        o.other_bad = {k: v[1] for k, v in bad.items() if k not in viol}
         return o
     o.result = C.NOT_REPRODUCED if any(v[0] == "not-reproduced" for v in bad.values()) else C.UNDECIDED
     o.detail = "; ".join(f"{k}: {v[1]}" for k, v in bad.items())[:900]
